@@ -52,6 +52,10 @@ structure Quirks where
   exportParamTruthy : Bool := false
   /-- cirq exporter raises on `Barrier` / `NopGate` -/
   cirqNopRaises : Bool := false
+  /-- `QintImp.mod` computes `x & (y - 1)` for every right operand, not only constant powers of two -/
+  modNonPow2 : Bool := false
+  /-- `Qchar.eq/neq` compare only the zipped prefix of operands of different widths -/
+  charEqZip : Bool := false
   deriving Repr, DecidableEq, Inhabited
 
 def Quirks.none : Quirks := {}
@@ -78,6 +82,8 @@ def Quirks.ofList (l : List String) : Quirks :=
     qasmFormalsFromKeys := l.contains "qasmFormalsFromKeys"
     qasmParam2f := l.contains "qasmParam2f"
     exportParamTruthy := l.contains "exportParamTruthy"
-    cirqNopRaises := l.contains "cirqNopRaises" }
+    cirqNopRaises := l.contains "cirqNopRaises"
+    modNonPow2 := l.contains "modNonPow2"
+    charEqZip := l.contains "charEqZip" }
 
 end QV
